@@ -272,6 +272,8 @@ def run(ctx):
     from . import C03
     C03.r6(ctx, ops=("hold", "release"), R="C08-R8")
     ctx.floor("C08-R8", 14)
+    C03.r7(ctx, ops=("hold", "release"), R="C08-R9")
+    ctx.floor("C08-R9", 4)
     C02.r4(ctx)   # R7: a released batch of `capacity` data segments + FIN fits the receive queue
 
 
